@@ -321,6 +321,13 @@ void AsyncContracts() {
        yaclib::AsyncSharedContract<V, E>(Exec(), Fn<void, SharedPromise<V, E>>{}),
        yaclib::AsyncSharedContract<V, E>(Exec(), MutFn<void, SharedPromise<V, E>>{}));
   static_assert(std::is_same_v<decltype(yaclib::AsyncSharedContract<V, E>(Exec(), Fn<void, SharedPromise<V, E>>{})), SharedFutureOn<V, E>>);
+#ifdef API_PROBE_KNOWN_7
+  // KNOWN_7 (a, minor): run.hpp `/*SharedFuture*/ auto AsyncSharedContract(Func&& f)` forgets the `.On(nullptr)` its siblings
+  // Run(f) / RunShared(f) / AsyncContract(f) have and returns a SharedFutureOn (over the inline executor): "conversion from
+  // 'SharedFutureOn<int>' to non-scalar type 'SharedFuture<int>' requested".  notes/api_probe.md #7.
+  SharedFuture<V, E> no_executor = yaclib::AsyncSharedContract<V, E>(Fn<void, SharedPromise<V, E>>{});
+  Sink(no_executor);
+#endif
 }
 template <typename E>
 void Runs() {
